@@ -197,7 +197,7 @@ func c17Decoder(dec string) dials.Decoder {
 
 // C17Op is one file operation.
 type C17Op struct {
-	Mech    string `json:"mech"`              // inplace | rename | delrec | swap (k8s layout) | retarget (link layout) | rmdir (remove the watched directory with everything in it, wait gap_ms, build the layout again with this operation's content)
+	Mech    string `json:"mech"`              // inplace | rename | delrec | swap (k8s layout) | retarget (link layout) | rmdir (remove the watched directory with everything in it, wait gap_ms, build the layout again with this operation's content) | rollback (rename a file with an OLDER modification time over the config: the backup written when these bytes were current, or a fresh file whose mtime is set back to 2000-01-01)
 	Content string `json:"content"`           // new | same | bad | restore (bytes of the last valid content) | revert (bytes of the valid content before the last one)
 	Doc     C17Doc `json:"doc"`               // when content == new
 	Bad     int    `json:"bad,omitempty"`     // malformed template, when content == bad
@@ -214,6 +214,9 @@ func (o C17Op) moves() bool { return o.Mech == "swap" || o.Mech == "retarget" }
 
 // kind is the operation class of the property statement.
 func (o C17Op) kind() string {
+	if o.Mech == "rollback" {
+		return "rollback"
+	}
 	switch o.Content {
 	case "same":
 		return "identical"
@@ -228,7 +231,7 @@ func (o C17Op) kind() string {
 // C17Setup is the part shared by all three checks.
 type C17Setup struct {
 	Decoder string `json:"decoder"` // json | yaml
-	Layout  string `json:"layout"`  // direct | k8s | link (the watched path is a plain symlink to the regular file)
+	Layout  string `json:"layout"`  // direct | k8s | link (the watched path is a plain symlink to the regular file) | dirlink (regular file reached through a symlinked directory: conf -> real, watched path conf/cfg.json)
 	Link    string `json:"link"`    // k8s: name of the directory symlink ("..data" as Kubernetes names it, "..dir" as dials' own test names it); link: where the first target lives, "same" directory or "sub" directory
 	Initial C17Doc `json:"initial"`
 	// Install: "" / "direct": the WatchingSource is given to Config;
@@ -295,6 +298,7 @@ func (s C17Setup) validate() error {
 		if s.Link != "same" && s.Link != "sub" {
 			return fmt.Errorf("link %q", s.Link)
 		}
+	case "dirlink":
 	default:
 		return fmt.Errorf("layout %q", s.Layout)
 	}
@@ -306,6 +310,10 @@ func c17ValidOps(s C17Setup, ops []C17Op, counters map[int]bool, extraPause map[
 		switch o.Mech {
 		case "inplace", "rename", "delrec":
 		case "rmdir":
+		case "rollback":
+			if o.GapMS != 0 {
+				return fmt.Errorf("op %d: rollback with a gap", i)
+			}
 		case "swap":
 			if s.Layout != "k8s" {
 				return fmt.Errorf("op %d: swap outside the k8s layout", i)
@@ -372,7 +380,7 @@ func genC17Doc(t *rapid.T, counter int) C17Doc {
 func genC17Setup(t *rapid.T) C17Setup {
 	s := C17Setup{
 		Decoder: rapid.SampledFrom([]string{"json", "yaml"}).Draw(t, "decoder"),
-		Layout:  rapid.SampledFrom([]string{"direct", "k8s", "k8s", "link"}).Draw(t, "layout"),
+		Layout:  rapid.SampledFrom([]string{"direct", "k8s", "k8s", "link", "dirlink"}).Draw(t, "layout"),
 		Initial: genC17Doc(t, 1),
 		Install: rapid.SampledFrom([]string{"direct", "direct", "direct", "blank-short", "blank-long"}).Draw(t, "install"),
 		PollMS:  rapid.SampledFrom([]int{0, 0, 0, 0, 0, 0, 25, 40}).Draw(t, "poll_ms"),
@@ -399,6 +407,10 @@ func genC17Mech(t *rapid.T, s C17Setup, atomicOnly, rmdirOK bool) string {
 		if die := rapid.IntRange(0, 59).Draw(t, "rmdir"); (s.PollMS > 0 && die >= 48) || (s.PollMS == 0 && die == 37) {
 			return "rmdir"
 		}
+		// rolling back to an older file: in every layout
+		if rapid.IntRange(0, 9).Draw(t, "rollback") == 6 {
+			return "rollback"
+		}
 	}
 	switch {
 	case layout == "k8s" && atomicOnly:
@@ -418,6 +430,7 @@ func genC17Mech(t *rapid.T, s C17Setup, atomicOnly, rmdirOK bool) string {
 // genC17Op draws one operation; content is "" for a free choice.
 func genC17Op(t *rapid.T, s C17Setup, counter int, content string, atomicOnly, noRevert, rmdirOK bool) C17Op {
 	o := C17Op{Mech: genC17Mech(t, s, atomicOnly, rmdirOK), PauseMS: genC17Pause(t)}
+	free := content == ""
 	if content == "" {
 		switch k := rapid.IntRange(0, 19).Draw(t, "content"); {
 		case k < 10:
@@ -431,6 +444,10 @@ func genC17Op(t *rapid.T, s C17Setup, counter int, content string, atomicOnly, n
 		default:
 			content = "revert"
 		}
+	}
+	if o.Mech == "rollback" && free && content == "new" && !noRevert && rapid.IntRange(0, 3).Draw(t, "rollback_to") > 0 {
+		// mostly roll back to bytes that were there before
+		content = rapid.SampledFrom([]string{"revert", "revert", "restore"}).Draw(t, "rollback_content")
 	}
 	o.Content = content
 	switch content {
@@ -634,14 +651,52 @@ type c17World struct {
 	tsDir   string // k8s: current timestamped directory
 	tsN     int
 	realSub bool // link: the target lives in a subdirectory
+	// backups: one file per content version, written when that version was
+	// current, outside the watched directories (rollback renames them back)
+	bakDir string
+	baks   map[string]string
+	bakN   int
+}
+
+// c17OldTime is the modification time given to a fresh file that is to look
+// old (no wall clock involved).
+var c17OldTime = time.Unix(946684800, 0)
+
+// watchDir is the directory that holds the regular file at the start (and
+// that the watcher watches through the config path's directory).
+func (w *c17World) watchDir() string {
+	if w.s.Layout == "dirlink" {
+		return filepath.Join(w.root, "real")
+	}
+	return w.root
+}
+
+// keepBackup stores the current bytes as a backup file unless there is one.
+func (w *c17World) keepBackup(b []byte, mtime *time.Time) {
+	if _, ok := w.baks[string(b)]; ok {
+		return
+	}
+	w.bakN++
+	p := filepath.Join(w.bakDir, fmt.Sprintf("v%d", w.bakN))
+	c17Must(os.WriteFile(p, b, 0o644))
+	if mtime != nil {
+		c17Must(os.Chtimes(p, *mtime, *mtime))
+	}
+	w.baks[string(b)] = p
 }
 
 func c17NewWorld(s C17Setup) *c17World {
 	root, err := os.MkdirTemp("", "verif-c17-")
 	c17Must(err)
-	w := &c17World{c17Model: c17NewModel(s), s: s, root: root}
+	bak, err := os.MkdirTemp("", "verif-c17bak-")
+	c17Must(err)
+	w := &c17World{c17Model: c17NewModel(s), s: s, root: root, bakDir: bak, baks: map[string]string{}}
 	w.visible = filepath.Join(root, "cfg."+s.Decoder)
+	if s.Layout == "dirlink" {
+		w.visible = filepath.Join(root, "conf", "cfg."+s.Decoder)
+	}
 	w.build(w.cur.bytes)
+	w.keepBackup(w.cur.bytes, nil)
 	return w
 }
 
@@ -652,6 +707,15 @@ func (w *c17World) build(b []byte) {
 	if s.Layout == "direct" {
 		w.real = w.visible
 		c17Must(os.WriteFile(w.real, b, 0o644))
+		return
+	}
+	if s.Layout == "dirlink" {
+		// root/real/cfg.json   regular file
+		// root/conf -> real     directory symlink; the watched path is root/conf/cfg.json
+		c17Must(os.Mkdir(filepath.Join(root, "real"), 0o755))
+		w.real = filepath.Join(root, "real", fname)
+		c17Must(os.WriteFile(w.real, b, 0o644))
+		c17Must(os.Symlink("real", filepath.Join(root, "conf")))
 		return
 	}
 	w.tsN++
@@ -683,13 +747,33 @@ func (w *c17World) build(b []byte) {
 	c17Must(os.Symlink(filepath.Join(s.Link, fname), w.visible))
 }
 
-func (w *c17World) close() { _ = os.RemoveAll(w.root) }
+func (w *c17World) close() {
+	_ = os.RemoveAll(w.root)
+	_ = os.RemoveAll(w.bakDir)
+}
 
 // apply performs one operation (not the pause after it) and updates the
 // model. It reports whether the operation exposes the file empty for a moment.
 func (w *c17World) apply(o C17Op) (transientEmpty bool) {
 	b := w.step(o).bytes
+	var rolled *time.Time
+	defer func() { w.keepBackup(b, rolled) }()
 	switch o.Mech {
+	case "rollback":
+		// a file that was written earlier comes back by rename
+		tmp := filepath.Join(w.bakDir, fmt.Sprintf("roll-%d", w.seq))
+		if src, ok := w.baks[string(b)]; ok {
+			c17Must(os.Rename(src, tmp))
+			delete(w.baks, string(b))
+		} else {
+			c17Must(os.WriteFile(tmp, b, 0o644))
+			c17Must(os.Chtimes(tmp, c17OldTime, c17OldTime))
+		}
+		if fi, err := os.Stat(tmp); err == nil {
+			mt := fi.ModTime()
+			rolled = &mt // the backup that replaces the consumed one keeps the old time
+		}
+		c17Must(os.Rename(tmp, w.real))
 	case "rmdir":
 		c17Must(os.RemoveAll(w.root))
 		time.Sleep(time.Duration(o.GapMS) * time.Millisecond)
@@ -1210,7 +1294,7 @@ func (r *c17Run) beginBurst() {
 	// 3. flood the watched directory with events for an unrelated name.
 	// mkdir and rmdir alternate, so the kernel cannot coalesce them. The queue
 	// is full (and an overflow marker queued) once it stops growing.
-	junk := filepath.Join(r.w.root, "zz-junk")
+	junk := filepath.Join(r.w.watchDir(), "zz-junk")
 	limit := 2*qlen + 8192
 	prev := c17Queued(fd)
 	for i := 0; i < limit; i++ {
@@ -1794,11 +1878,13 @@ func runC17Converge(c C17Case) vrt.Verdict {
 func TestC17Converge(t *testing.T) {
 	vrt.Check(t, vrt.Prop[C17Case]{
 		ID: "C17", Name: "converge",
-		Rule: "a real temp directory holds a JSON or YAML config file, direct, in the Kubernetes AtomicWriter layout (visible symlink -> <link>/file, <link> -> ..ts-N, link named ..data or ..dir) " +
-			"or behind a plain symlink (target next to the link or in a subdirectory; retarget = new target file, new symlink renamed over the visible one); " +
+		Rule: "a real temp directory holds a JSON or YAML config file, direct, in the Kubernetes AtomicWriter layout (visible symlink -> <link>/file, <link> -> ..ts-N, link named ..data or ..dir), " +
+			"behind a plain symlink (target next to the link or in a subdirectory; retarget = new target file, new symlink renamed over the visible one) " +
+			"or as a regular file reached through a symlinked directory (conf -> real, watched path conf/cfg.json: both directory names are one inode and one inotify watch descriptor); " +
 			"a real file.WatchingSource, without the fallback poll or (1 case in 4) WithPollInterval(25 or 40 ms), is given to dials.Config directly or (2 in 5) installed the way ez does it: Config with a sourcewrap.Blank, then Blank.SetSource(file source) " +
 			"with a context of its own that is cancelled as soon as SetSource has returned (blank-short) or only after the release checks (blank-long) - the watcher must live exactly as long as the context given to Config; " +
-			"1..12 operations {remove the whole watched directory, keep it away for 0/60/150 ms, build the layout again with new content (rmdir), in-place truncate+write, temp+rename-over, ..ts-N/<link> swap or symlink retarget with or without removal of the old directory/target, delete+recreate} " +
+			"1..12 operations {rollback: a file with an OLDER modification time is renamed over the config - the backup copy written when those bytes were current (restore / revert / identical content), " +
+			"or for new or malformed content a fresh file whose mtime is set back to 2000-01-01; the view must hold the rolled-back content like after any rename-over; remove the whole watched directory, keep it away for 0/60/150 ms, build the layout again with new content (rmdir), in-place truncate+write, temp+rename-over, ..ts-N/<link> swap or symlink retarget with or without removal of the old directory/target, delete+recreate} " +
 			"each writing new valid content (unique counter), identical bytes, malformed content, the last valid content again (restore) or the valid content before that (revert), with pauses of 0/1/30 ms from the case " +
 			"(a new-content operation may carry a settle flag: wait for the view to show it before going on); final content valid, identical to the previous, restored, reverted or invalid. " +
 			"Oracle by construction: View() must become defaults overlaid with the fields of the final document; when the final content is invalid the harness first waits for the last valid content to be installed " +
